@@ -86,6 +86,11 @@ def translate(ctx: Any) -> None:
     from translate import t_c24_gates
 
     ctx.gen("G_Gates", lambda: t_c24_gates.generate(ctx.repo))
+    # verify_proof statement by statement (C22's translator; read-only use): tie/T_Gates.v proves over this term that
+    # the replay-cache lookup is the LAST check, the source obligation behind the history model (hist_step)
+    from translate import t_c22_verify
+
+    ctx.gen("G_Proof", lambda: t_c22_verify.proof_module(ctx.repo / "vgi_rpc" / "http" / "_proof.py"))
 
 
 def run(ctx: Any) -> None:  # noqa: C901 - one linear script
@@ -98,7 +103,8 @@ def run(ctx: Any) -> None:  # noqa: C901 - one linear script
                 "C24_authenticated_only_if_verified_or_inner", "C24_any_gate_authenticated_only_if",
                 "C24_allow_unproven_is_anonymous", "C24_require_never_calls_inner_after_fail", "C24_any_gate_failure_stops",
                 "C24_proven_inner_decides", "C24_gate_raises_iff", "C24_gate_not_in_chain", "C24_chain_ctor_iff",
-                "C24_chain_cannot_bypass_required_gate",
+                "C24_chain_cannot_bypass_required_gate", "C24_refused_presentation_leaves_no_trace",
+                "C24_refused_traffic_changes_no_verdict", "C24_replay_detected_despite_refused_traffic",
             ],
             "R_C24": ["C24_old_allow_unproven_authenticated_refuted"],
         },
@@ -110,7 +116,7 @@ def run(ctx: Any) -> None:  # noqa: C901 - one linear script
                 "ra_body_tie", "gate_pre_tie", "required_tie", "off_guard_tie", "fail_claims_tie", "chain_guards_tie", "chain_swallows_tie",
                 "proof_error_base_tie", "auth_failure_base_tie", "constructible_iff", "C24_source_authenticated_only_if",
                 "C24_source_allow_unproven_is_anonymous", "C24_source_require_never_calls_inner",
-                "C24_source_gate_not_in_chain", "C24_source_gate_failure_not_swallowed",
+                "C24_source_gate_not_in_chain", "C24_source_gate_failure_not_swallowed", "verify_proof_cache_check_is_last",
             ],
         },
     )
@@ -371,7 +377,10 @@ def run(ctx: Any) -> None:  # noqa: C901 - one linear script
         "chains up to length 3/4, require_all on non-gates, proxy_proof_gate per mode); chains of up to 3 plain authenticators; "
         "chain(require_all(gate, a), b); chains of 2-3 require_all wrappers around DISTINCT gates (proxy gates with different key maps / "
         "modes sharing the claims key; custom gates with equal and with different claims keys) x token {none, valid for A, valid for B, "
-        "garbage} x inner {accept, reject, ValueError, none} evaluated within ONE request with a per-gate invocation log; the same requests through the Falcon app. Non-trivial = not a constructor-only case."
+        "garbage} x inner {accept, reject, ValueError, none} evaluated within ONE request with a per-gate invocation log; "
+        "HISTORIES on one gate instance with replay_capacity 1..8: valid P, then k in {cap-1, cap, cap+1, 2cap+1} refused tokens with fresh "
+        "nonces (3 forged-MAC kinds, unknown kid, out of window, malformed), replays of P and 0 / cap-1 / cap other accepted proofs, then P again "
+        "(last step through require_all), each also re-run with the refused presentations deleted; the same requests through the Falcon app. Non-trivial = not a constructor-only case."
     )
 
     # ------------------------------------------------------------------ 1. the gate alone, and constructor
@@ -744,6 +753,119 @@ def run(ctx: Any) -> None:  # noqa: C901 - one linear script
             ok = resp.status_code >= 500 and not _SEEN
         if not ok:
             ctx.violation("http-identity-differs", "the Falcon app does not hand the method the context require_all returned (or does not refuse when it raised)", repl)
+
+    # ------------------------------------------------------------------ 6. HISTORIES on one gate instance with a small replay cache
+    # [valid P] + noise (forged / bad-mac / unknown-kid / malformed / out-of-window tokens with fresh nonces, replays of P,
+    # and a bounded number of other valid proofs) + [replay P].  A refused request must leave no trace: P's replay is
+    # answered `replayed` unless >= capacity OTHER proofs were ACCEPTED in between, and the verdicts of a history are those of
+    # the same history with the refused presentations deleted.
+    def make_gate_cap(mode: str, cap: int, record: list[Any]) -> Any:
+        g = proxy_proof_gate(ProxyProofConfig(mode=mode, origin_id=ORIGIN, secrets={KID: (SECRET, LABEL)}, skew_seconds=SKEW, replay_capacity=cap), now=lambda: NOW)
+        orig = g._fn
+
+        def logged(req: Any) -> Any:
+            try:
+                out = orig(req)
+            except BaseException as exc:
+                record.append(exc)
+                raise
+            record.append(out)
+            return out
+
+        g._fn = logged
+        return g
+
+    def verdict(x: Any) -> list[int]:
+        if isinstance(x, BaseException):
+            return [41, *enc_exn(x)]
+        return [40, *(enc_gclaims(x) or [99])]
+
+    def nonce_of(tok: str) -> str:
+        return tok.split(".")[3]
+
+    NOISE: dict[str, tuple[Any, str]] = {  # kind -> (token maker, Coq hdr as the UNCACHED verifier sees it)
+        "forged-random-mac": (lambda: tamper(mint()), F("RBadMac")),
+        "forged-other-secret": (lambda: mint(secret=OTHER_SECRET), F("RBadMac")),
+        "forged-other-origin": (lambda: mint(origin="origin-2"), F("RBadMac")),
+        "unknown-kid": (lambda: mint(kid="someone-else"), F("RUnknownKid")),
+        "expired": (lambda: mint(now=NOW - SKEW - 1), F("RExpired")),
+        "not-yet-valid": (lambda: mint(now=NOW + SKEW + 1), F("RNotYetValid")),
+        "malformed-mac-short": (lambda: mint()[:-1], F("RMalformed")),
+        "other-valid": (lambda: mint(), "HToken None"),
+    }
+    REFUSED_KINDS = [k for k in NOISE if k != "other-valid"]
+
+    def run_history(mode: str, cap: int, toks: list[tuple[str, str | None]], final_via_require_all: bool) -> tuple[list[Any], Any, Any, list[Any]]:
+        """toks: (kind, header value).  Returns (gate verdict per presentation, result / exception of the last
+        presentation through require_all, inner log)."""
+        record: list[Any] = []
+        gate = make_gate_cap(mode, cap, record)
+        ilog: list[Any] = []
+        r = e = None
+        for j, (_, value) in enumerate(toks):
+            if j == len(toks) - 1 and final_via_require_all:
+                inner = make_inner(1, user, ilog) if mode == "require" else None
+                r, e = call(require_all(gate, inner), make_req(value))
+            else:
+                call(gate, make_req(value))
+        return record, r, e, ilog
+
+    hist_specs: list[tuple[str, int, list[str]]] = []
+    caps = (1, 2, 3, 4, 8) if not thorough else (1, 2, 3, 4, 5, 6, 7, 8)
+    for mode in ("allow", "require"):
+        for cap in caps:
+            for k in sorted({max(cap - 1, 0), cap, cap + 1, 2 * cap + 1}):
+                for kind in REFUSED_KINDS:                       # k refused tokens of one kind
+                    hist_specs.append((mode, cap, [kind] * k))
+                hist_specs.append((mode, cap, [rng.choice(REFUSED_KINDS) for _ in range(k)]))       # mixed refused
+                for a in sorted({0, cap - 1, cap} - {-1}):           # a OTHER accepted proofs mixed with refused ones
+                    seq = ["other-valid"] * a + [rng.choice(REFUSED_KINDS) for _ in range(k)]
+                    rng.shuffle(seq)
+                    hist_specs.append((mode, cap, seq))
+                hist_specs.append((mode, cap, [rng.choice(REFUSED_KINDS + ["replay-P"]) for _ in range(k + 1)]))
+    for mode, cap, kinds in hist_specs:
+        p_tok = mint()
+        toks: list[tuple[str, str | None]] = [("P", p_tok)]
+        for kind in kinds:
+            toks.append(("replay-P", p_tok) if kind == "replay-P" else (kind, NOISE[kind][0]()))
+        toks.append(("replay-P", p_tok))
+        record, r, e, ilog = run_history(mode, cap, toks, True)
+        ids: dict[str, int] = {}
+        terms = []
+        for kind, value in toks:
+            hc = "HToken None" if kind in ("P", "replay-P") else NOISE[kind][1]
+            n_id = ids.setdefault(nonce_of(value) if value and value.count(".") == 4 else value or "", len(ids) + 1)
+            terms.append(f"({hc}, {cN(n_id)})")
+        obs = [x for v in record for x in verdict(v)]
+        accepted_between = sum(1 for kd in kinds if kd == "other-valid")
+        repl = {"kind": "history on one gate instance", "mode": mode, "replay_capacity": cap, "presentations": [kd for kd, _ in toks], "tokens": [v for _, v in toks],
+                "other_accepted_between": accepted_between, "gate_verdicts": [repr(v)[:90] for v in record],
+                "final_through_require_all": repr(r) + (" claims=" + repr(dict(r.claims)) if isinstance(r, AuthContext) else ""), "final_exception": repr(e), "inner_log": list(ilog)}
+        add_case(f"CaseHist {cap}%nat {MODE_COQ[mode]} " + clist(terms), obs, repl)
+        ctx.case(["hist", mode, cap, kinds])
+        ctx.count("gate_histories")
+        ctx.tally("history_capacity", cap)
+        # --- oracle, independent of the model
+        first, last = record[0], record[-1]
+        if not (isinstance(first, dict) and first.get("verified") == "true"):
+            ctx.violation("history-fresh-proof-refused", "the first presentation of a valid proof was not accepted", repl)
+        if accepted_between <= cap - 1:
+            replayed = (isinstance(last, ProofError) and last.reason == "replayed") if mode == "require" else (isinstance(last, dict) and last.get("verified") == "false" and last.get("reason") == "replayed")
+            if not replayed:
+                ctx.violation("replay-accepted-after-refused-traffic", f"a proof accepted once verified again on replay although only {accepted_between} other proof(s) "
+                              f"were accepted in between (capacity {cap}): refused presentations consumed replay slots", repl)
+            if mode == "require" and (ilog or not is_proof_error(e) if e is not None else True):
+                ctx.violation("replayed-proof-served", "require mode: a replayed proof reached the inner authenticator / was served", repl)
+            if mode == "allow" and not (isinstance(r, AuthContext) and not r.authenticated and r.domain is None and r.principal is None):
+                ctx.violation("replayed-proof-served", "allow mode: a replayed proof was attributed instead of proceeding as anonymous", repl)
+        # "a refused request leaves no trace": same verdicts with the refused presentations deleted
+        keep = [j for j, (kd, _) in enumerate(toks) if kd in ("P", "replay-P", "other-valid")]
+        if len(keep) != len(toks):
+            record2, _, _, _ = run_history(mode, cap, [toks[j] for j in keep], True)
+            if [verdict(record[j]) for j in keep] != [verdict(v) for v in record2]:
+                ctx.violation("refused-presentation-changes-later-verdict", "deleting the refused presentations from a history changes the verdict of a later presentation", 
+                              {**repl, "verdicts_without_refused": [repr(v)[:90] for v in record2], "kept_positions": keep})
+    ctx.sample({"history": "capacity 2: valid P, 3 forged tokens with fresh nonces (refused), P again", "expected": "replayed (require: ProofError, inner not consulted; allow: anonymous)"})
 
     # ------------------------------------------------------------------ model side
     header = "From Coq Require Import List NArith Bool.\nFrom VGI Require Import M_Gates Corr.\nImport ListNotations.\nOpen Scope N_scope."
